@@ -80,3 +80,7 @@ func traceCall[F any](t traceT, f F, a0, a1, a2 interface{}) traceT { return tra
 // contracts of interface methods (e.g. bytes accepted by a writer).
 func ghostInt(name string, key interface{}) int           { return 0 }
 func ghostIface(name string, key interface{}) interface{} { return nil }
+
+// mapVal(m): the contents of map m as a value (domain and values), for
+// comparing a map with its earlier self: same(mapVal(m), old(mapVal(m))).
+func mapVal[M any](m M) M { return m }
